@@ -389,6 +389,7 @@ def run(chk):
 
 _F = "cnvlib/segfilters.py"
 MUTANTS = [
+    dict(name="twin: ci levels through nested np.where", expect="silent", file="cnvlib/segfilters.py", old="    levels[segarr[\"ci_lo\"].values > 0] = 1\n    levels[segarr[\"ci_hi\"].values < 0] = -1\n    return squash_by_groups(segarr, pd.Series(levels, index=segarr.data.index))", new="    levels = np.where(segarr[\"ci_lo\"].values > 0, 1.0, np.where(segarr[\"ci_hi\"].values < 0, -1.0, 0.0))\n    return squash_by_groups(segarr, pd.Series(levels, index=segarr.data.index))"),
     dict(name="regress: ci levels on a fresh index", file=_F, old='    levels[segarr["ci_hi"].values < 0] = -1\n    return squash_by_groups(segarr, pd.Series(levels, index=segarr.data.index))', new='    levels[segarr["ci_hi"].values < 0] = -1\n    return squash_by_groups(segarr, pd.Series(levels))'),
     dict(name="ci: >= 0", file=_F, old='    levels[segarr["ci_lo"].values > 0] = 1', new='    levels[segarr["ci_lo"].values >= 0] = 1'),
     dict(name="ci: hi tested for gain", file=_F, old='    levels[segarr["ci_lo"].values > 0] = 1', new='    levels[segarr["ci_hi"].values > 0] = 1'),
@@ -402,6 +403,7 @@ MUTANTS = [
     dict(name="seeded C14f: weighted summaries only when every member has weight", file=_F, old='    if region_weight > 0:\n        out["log2"] = np.average', new='    if (cnarr["weight"] > 0).all():\n        out["log2"] = np.average'),
     dict(name="seeded C14e: ci hands squash_by_groups a bare array, re-wrapped without the index", edits=[(_F, '    levels[segarr["ci_hi"].values < 0] = -1\n    return squash_by_groups(segarr, pd.Series(levels, index=segarr.data.index))', '    levels[segarr["ci_hi"].values < 0] = -1\n    return squash_by_groups(segarr, levels)'), (_F, "    # Enumerate runs of identical values\n", "    if not isinstance(levels, pd.Series):\n        levels = pd.Series(levels)\n")]),
     dict(name="twin: bare level arrays wrapped on the table's own index inside squash_by_groups", expect="silent", edits=[(_F, '    levels[segarr["ci_hi"].values < 0] = -1\n    return squash_by_groups(segarr, pd.Series(levels, index=segarr.data.index))', '    levels[segarr["ci_hi"].values < 0] = -1\n    return squash_by_groups(segarr, levels)'), (_F, "    # Enumerate runs of identical values\n", "    if not isinstance(levels, pd.Series):\n        levels = pd.Series(levels, index=cnarr.data.index)\n")]),
+    dict(name="twin: run index by comparing with the shifted levels", expect="silent", file=_F, old="    return levels.diff().fillna(0).abs().cumsum().astype(int)", new="    changed = levels != levels.shift()\n    changed.iloc[0] = False\n    return changed.cumsum().astype(int)"),
     dict(name="chromosome ordinal dropped", file=_F, old="        change_levels += chrom_col\n", new=""),
     dict(name="allele-specific key dropped", file=_F, old='        groupkey.extend(["_g1", "_g2"])\n', new=""),
     dict(name="enumerate_changes without abs", file=_F, old="    return levels.diff().fillna(0).abs().cumsum().astype(int)", new="    return levels.diff().fillna(0).cumsum().astype(int)"),
